@@ -38,7 +38,7 @@ Proof. reflexivity. Qed.
 
 (* ------------------------------------------------------------------ bin_archive.rs *)
 Definition cb (i : nat) : N := nthN i src_BIN_HEADER.
-Theorem src_BIN_HEADER_agrees_count : List.length src_BIN_HEADER = 11%nat.
+Theorem src_BIN_HEADER_agrees_count : List.length src_BIN_HEADER = 12%nat.
 Proof. reflexivity. Qed.
 
 Fixpoint ptr_loop_p (h : N) (e : endian) (f : bytes) (flen dsz : N) (n : nat) (pos : N) (a : archive) : outcome archive :=
@@ -121,9 +121,10 @@ Proof.
   rewrite lbl_loop_p_model. reflexivity.
 Qed.
 
-(* BinArchive::serialize with the header size (file size, position of the data = 16 bytes of fields + zero fill)
-   and the alignment of the c-string pool as parameters *)
-Definition serialize_p (kf : name_key) (hsz_size hsz_seek al : N) (m : mode) (a : archive) : outcome bytes :=
+(* BinArchive::serialize with the header size (file size, position of the data = 16 bytes of fields + zero fill),
+   the alignment of the c-string pool and the largest accepted file size (`if file_size > u32::MAX as usize { return Err }`,
+   fix 524d15f) as parameters *)
+Definition serialize_p (kf : name_key) (hsz_size hsz_seek al lim : N) (m : mode) (a : archive) : outcome bytes :=
   let e := a_endian a in
   let dlen := size a in
   let cs := isort (fun x y : bytes * list N => bytes_leb (fst x) (fst y)) (a_cstrs a) in
@@ -141,13 +142,14 @@ Definition serialize_p (kf : name_key) (hsz_size hsz_seek al : N) (m : mode) (a 
   let raw_pointers := raw_pointers1 ++ concat (map (fun g => isort N.leb (map (trunc_w 32) (snd g))) groups) in
   let file_size := dlen + lenN raw_cstrings + N.of_nat (List.length raw_pointers) * 4
                    + N.of_nat (List.length raw_labels) * 4 + p_len tpool2 + hsz_size in
+  _ <- guard (file_size <=? lim) EOther ;;
   dsz <- add_w 32 m (trunc_w 32 dlen) (trunc_w 32 (lenN raw_cstrings)) ;;
   Ok (enc e 4 (trunc_w 32 file_size) ++ enc e 4 dsz ++ enc e 4 (trunc_w 32 (N.of_nat (List.length raw_pointers)))
       ++ enc e 4 (trunc_w 32 (N.of_nat (List.length raw_labels) / 2)) ++ zeros (N.to_nat (hsz_seek - 16))
       ++ d2 ++ raw_cstrings ++ u32s e raw_pointers ++ u32s e raw_labels ++ p_raw tpool2).
 
 Theorem src_BIN_HEADER_agrees_serialize : forall kf m a,
-  BinFormat.serialize_k kf m a = serialize_p kf (cb 8) (cb 9) (cb 10) m a.
+  BinFormat.serialize_k kf m a = serialize_p kf (cb 8) (cb 9) (cb 10) (cb 11) m a.
 Proof. intros kf m a. reflexivity. Qed.
 
 (* reader and writer use one header size *)
